@@ -517,7 +517,9 @@ fn sc_listget<T: BT>(env: &Env, rep: &mut Report, name: &str) {
     let src = format!(
         "fn get(l: List[{t}], i: u64) -> Option[{t}] {{ l.get(i) }}\n\
          fn last(l: List[{t}], d: {t}) -> {t} {{ let r = d; for x in l {{ r = x; }} r }}\n\
-         fn count(l: List[{t}]) -> u64 {{ let n = 0; for x in l {{ n = n + 1; }} n }}\n"
+         fn count(l: List[{t}]) -> u64 {{ let n = 0; for x in l {{ n = n + 1; }} n }}\n\
+         fn mk(a: {t}, b: {t}) -> List[{t}] {{ [a, b, a] }}\n\
+         fn push(l: List[{t}], x: {t}) -> List[{t}] {{ l.push(x); l }}\n"
     );
     let Some(mut pkg) = compile_noctx(&rt, &src, rep, name) else { return };
     macro_rules! g { ($n:literal, $f:ty) => { match pkg.get_function::<$f>($n) { Ok(f) => f, Err(e) => {
@@ -525,6 +527,8 @@ fn sc_listget<T: BT>(env: &Env, rep: &mut Report, name: &str) {
     let f_get = g!("get", fn(List<T>, u64) -> Option<T>);
     let f_last = g!("last", fn(List<T>, T) -> T);
     let f_count = g!("count", fn(List<T>) -> u64);
+    let f_mk = g!("mk", fn(T, T) -> List<T>);
+    let f_push = g!("push", fn(List<T>, T) -> List<T>);
     let mut p = Prng::for_case(env.seed, h64(name));
     for k in 0..env.rounds {
         let l = List::<T>::gen_val(&mut p, k);
@@ -542,7 +546,17 @@ fn sc_listget<T: BT>(env: &Env, rep: &mut Report, name: &str) {
         if want != got { bad.push(json!({"fn": "last", "expected": want, "got": got})); }
         let got = f_count.call(l.clone());
         if got != v.len() as u64 { bad.push(json!({"fn": "count", "expected": v.len(), "got": got})); }
-        rep.evaluations += 2;
+        // a list built by the script (element size/alignment/clone/drop from Roto's own vtable) read by Rust
+        let (a, b) = (T::gen_val(&mut p, k + 1), T::gen_val(&mut p, k + 2));
+        let want = format!("[{}, {}, {}]", a.show(), b.show(), a.show());
+        let got = f_mk.call(a, b.clone()).show();
+        if want != got { bad.push(json!({"fn": "mk", "expected": want, "got": got})); }
+        let mut w = v.clone();
+        w.push(b.clone());
+        let want = format!("[{}]", w.iter().map(|x| x.show()).collect::<Vec<_>>().join(", "));
+        let got = f_push.call(List::from(v.clone()), b).show();
+        if want != got { bad.push(json!({"fn": "push", "expected": want, "got": got})); }
+        rep.evaluations += 4;
         if let Some(b) = bad.first() {
             let mut input = b.clone();
             input["script"] = json!(src);
